@@ -8,7 +8,7 @@ from __future__ import annotations
 
 import z3
 
-from pyvc.engine import GhostFn, SObj, SSeq, invariant_loop, real_round_half_even, to_real
+from pyvc.engine import Atom, GhostFn, SObj, SSeq, SStr, invariant_loop, real_round_half_even, to_real
 from pyvc.verify import contract
 
 META = {
@@ -113,6 +113,29 @@ def _native_size(c):
     cx, cy = out.value
     c.ensures("post.floor_of_quotient", z3.And(cx * dh <= 914400 * w, 914400 * w < (cx + 1) * dh, cy * dv <= 914400 * h, 914400 * h < (cy + 1) * dv))
     c.ensures("post.positive", z3.And(cx >= 446, cy >= 446))
+
+
+@contract("C15", "C15.parts.image.Image._pil_props", replay=_replay_size)
+def _pil_props(c):
+    """the properties are the ones Pillow reports for the stored bytes: (format, size, info['dpi']), nothing derived from other metadata."""
+    import PIL.Image as PIL_Image
+    from pptx.parts.image import Image
+
+    w, h = c.int("width_px"), c.int("height_px")
+    fmt = SStr([Atom("format", zs=z3.String("format"))])
+    dpi = SObj(None, "pil_dpi")
+    info = SObj(None, "info", get=GhostFn(lambda it, a, k: dpi if a and a[0] == "dpi" else None, "info.get"))
+    pil = SObj(None, "pil_image", format=fmt, size=(w, h), info=info, __external__=True)
+    c.summaries["PIL.Image:open"] = lambda it, a, k: pil
+    c.path.assumed.add("PIL.Image.open(stream) reports format, size and info of the stored bytes")
+    img = SObj(Image, "image", _blob=b"bytes")
+    fn = Image.__dict__["_pil_props"]
+    out = c.run(getattr(fn, "_fget", None) or getattr(fn, "fget", None) or fn.__wrapped__, img)
+    if out.raised:
+        c.fails("never_raises", "raised %s" % out.exc)
+        return
+    f2, sz, d2 = out.value
+    c.ensures("post.format_size_dpi_as_pillow_reports", f2 is fmt and d2 is dpi and len(sz) == 2 and z3.is_expr(sz[0]) and z3.is_expr(sz[1]) and z3.And(sz[0] == w, sz[1] == h))
 
 
 @contract("C15", "C15.parts.image.ImagePart.scale", replay=_replay_size)
@@ -345,6 +368,41 @@ def _native_images(tier="quick", seed=0):
                 ideal = want[1] * 1000 / want[0]
                 if pic2.width != 1000 or abs(pic2.height - ideal) > 0.5 + 1e-9:
                     bad = bad or ("aspect", "%s %sx%s: width 1000 gives height %s, ideal %.3f" % (fmt, size[0], size[1], pic2.height, ideal))
+    # metadata that says how a viewer might present the image (EXIF orientation 1..8, an ICC profile, a comment) changes neither the
+    # stored pixel grid nor the bytes: the picture has the stored width x height at the stored dpi
+    # (TIFF is left out: Pillow's TIFF reader applies the Orientation tag itself and reports the transposed grid as the image's size)
+    for fmt in ("JPEG", "PNG"):
+        for orient in range(1, 9):
+            for dpi in (None, (300, 150)):
+                im = PIL.new("RGB", (4, 3), (orient * 20, 7, 9 if dpi else 10))
+                ex = PIL.Exif()
+                ex[0x0112] = orient
+                ex[0x010E] = "a description"
+                b = io.BytesIO()
+                kw = {"exif": ex}
+                if dpi is not None:
+                    kw["dpi"] = dpi
+                try:
+                    im.save(b, fmt, **kw)
+                except Exception:
+                    continue
+                blob = b.getvalue()
+                if PIL.open(io.BytesIO(blob)).getexif().get(0x0112) != orient:
+                    continue
+                evals += 1
+                reported = PIL.open(io.BytesIO(blob)).info.get("dpi") or (72, 72)
+                eff = [int(round(float(v))) if 1 <= int(round(float(v))) <= 2048 else 72 for v in reported]
+                want = (int(914400 * 4 / eff[0]), int(914400 * 3 / eff[1]))
+                pic = s1.shapes.add_picture(io.BytesIO(blob), Emu(0), Emu(0))
+                pic2 = s2.shapes.add_picture(io.BytesIO(blob), Emu(0), Emu(0), height=Emu(3000))
+                if pic.image.blob != blob:
+                    bad = bad or ("bytes", "%s with EXIF orientation %d: bytes not stored byte-exact" % (fmt, orient))
+                if (pic.width, pic.height) != want or pic.image.size != (4, 3):
+                    bad = bad or ("size", "%s 4x3 dpi %r EXIF orientation %d: picture is %s x %s EMU (image.size %r), expected %s from the stored pixel grid"
+                                  % (fmt, dpi, orient, pic.width, pic.height, pic.image.size, want))
+                ideal = want[0] * 3000 / want[1]
+                if pic2.height != 3000 or abs(pic2.width - ideal) > 0.5 + 1e-9:
+                    bad = bad or ("aspect", "%s 4x3 dpi %r EXIF orientation %d: height 3000 gives width %s, ideal %.3f" % (fmt, dpi, orient, pic2.width, ideal))
     names = [str(p.partname) for p in set(seen.values())]
     if len(names) != len(set(names)):
         bad = bad or ("names", "two image parts share a part name")
